@@ -374,3 +374,34 @@ def fft_route_origin(which):
     check('origin-sample-rolled-to-index-0', approx(elem(arg, i, j), elem(f, (i + m // 2) % m, (j + n // 2) % n), 1e-9))
     check('bin-k-at-index-k+n//2', approx(elem(out, i, j), elem(T, (i - m // 2) % m, (j - n // 2) % n), 1e-9))
     check('on-axis-term-at-the-origin-sample', approx(elem(out, m // 2, n // 2), elem(T, 0, 0), 1e-9))
+
+
+@harness('C04', 'bounded/point-sources-in-floating-point', kind='bounded', variants=['autocrop', 'centroid'],
+         fuc=['prysm.psf.autocrop', 'prysm.psf.centroid'])
+def bounded_point_sources(which):
+    """BOUNDED (the deductive obligations above treat machine arithmetic as real arithmetic; a center of mass is a quotient of
+    floating-point sums): seeded point sources of every amplitude 1e-3..1e3 at every position of arrays 1..12 per axis: the reported
+    centroid is the source's sample to rounding, and autocrop's window (every width that fits) has the source on its origin sample."""
+    import numpy as np
+    rng = np.random.default_rng(Int('seed', 0, 10 ** 6))
+    psf = get('prysm.psf')
+    ok_c, ok_a = True, True
+    for _ in range(40):
+        h, w = int(rng.integers(1, 13)), int(rng.integers(1, 13))
+        p, q = int(rng.integers(0, h)), int(rng.integers(0, w))
+        amp = float(10 ** rng.uniform(-3, 3))
+        d = np.zeros((h, w))
+        d[p, q] = amp
+        if which == 'centroid':
+            dx = float(rng.uniform(0.1, 3))
+            cy, cx = psf.centroid(d, dx=dx)
+            ok_c &= bool(np.isclose(cy, (p - h // 2) * dx, rtol=1e-12, atol=1e-12) and np.isclose(cx, (q - w // 2) * dx, rtol=1e-12, atol=1e-12))
+        else:
+            fits = [px for px in range(1, 8) if p - px // 2 >= 0 and p - px // 2 + px <= h and q - px // 2 >= 0 and q - px // 2 + px <= w]
+            for px in fits:
+                out = psf.autocrop(d, px)
+                ok_a &= out.shape == (px, px) and bool(out[px // 2, px // 2] == amp)
+    if which == 'centroid':
+        check('point-source-reported-k-dx-from-zero', ok_c)
+    else:
+        check('source-on-the-window-origin-sample', ok_a)
